@@ -61,6 +61,27 @@ float64 = DType("f8")
 float32 = DType("f4")
 int64 = DType("i8")
 int_ = int64
+# narrow integer types: values wrap when they are cast to the type (astype / array(dtype=) / zeros(dtype=)); the array
+# itself is then handled as an integer array (arithmetic performed *in* a narrow type does not wrap: outside the model)
+uint8, uint16, uint32 = DType("i8", ("u", 8)), DType("i8", ("u", 16)), DType("i8", ("u", 32))
+int8, int16, int32 = DType("i8", ("i", 8)), DType("i8", ("i", 16)), DType("i8", ("i", 32))
+uint64 = DType("i8", ("u", 64))
+intc, uintc, short, ushort, ubyte, byte = int32, uint32, int16, uint16, uint8, int8
+
+
+def _wrap_int(v, width):
+    """C conversion of an integer to a narrower type: modulo 2^bits"""
+    kind, bits = width
+    if isinstance(v, (bool, SymBool)) or not isinstance(v, (int, SymInt)):
+        return v
+    m = 1 << bits
+    if kind == "u":
+        return v % m
+    return (v + (m >> 1)) % m - (m >> 1)
+
+
+def _narrow(dt):
+    return dt.width if isinstance(dt, DType) and isinstance(dt.width, tuple) else None
 intp = int64
 bool_ = DType("b")
 str_ = DType("U")
@@ -303,9 +324,11 @@ class ndarray:
 
     def astype(self, dt, copy=True):
         d = _dt(dt)
-        if not copy and d == self._dt and not (isinstance(dt, DType) and dt.width not in (None, self.uw)):
+        if not copy and d == self._dt and not _narrow(dt) and not (isinstance(dt, DType) and dt.width not in (None, self.uw)):
             return self  # numpy returns the very same array: callers that write into it write into the original
         vals = [_cast(v, d) for v in self.flat]
+        if _narrow(dt):
+            vals = [_wrap_int(v, dt.width) for v in vals]
         w = dt.width if isinstance(dt, DType) and d in ("U", "S") else None
         if w is not None:
             # numpy's fixed-width unicode: longer (concrete) strings are silently truncated
@@ -876,7 +899,7 @@ def _ufunc1(a, f, dt=None):
 # --------------------------------------------------------------------------- construction
 def array(obj, dtype=None, copy=True):
     if isinstance(obj, ndarray):
-        if dtype is None or _dt(dtype) == obj._dt:
+        if dtype is None or (_dt(dtype) == obj._dt and not _narrow(dtype)):
             return obj.copy() if copy else obj
         return obj.astype(dtype)
     if isinstance(obj, (list, tuple, range)) or isinstance(obj, types.GeneratorType):
@@ -894,14 +917,18 @@ def array(obj, dtype=None, copy=True):
             shape = (len(vals),)
             dt0 = (_infer_dt(vals) if vals else "f8") if dtype is None else None
         d = _dt(dtype) if dtype is not None else dt0
-        return ndarray.fresh([_cast(v, d) for v in vals], shape, d)
+        vals = [_cast(v, d) for v in vals]
+        if _narrow(dtype):
+            vals = [_wrap_int(v, dtype.width) for v in vals]
+        return ndarray.fresh(vals, shape, d)
     obj = _unbox(obj)
     d = _dt(dtype) if dtype is not None else _infer_dt([obj])
-    return ndarray.fresh([_cast(obj, d)], (), d)
+    v = _cast(obj, d)
+    return ndarray.fresh([_wrap_int(v, dtype.width) if _narrow(dtype) else v], (), d)
 
 
 def asarray(obj, dtype=None):
-    if isinstance(obj, ndarray) and (dtype is None or _dt(dtype) == obj._dt):
+    if isinstance(obj, ndarray) and (dtype is None or (_dt(dtype) == obj._dt and not _narrow(dtype))):
         return obj  # no copy: aliasing is observable
     return array(obj, dtype=dtype)
 
@@ -1267,6 +1294,10 @@ def _nexp(x):
 
 log = _mk_math("log", E.LOG, _clog, _nlog)
 exp = _mk_math("exp", E.EXP, _cexp, _nexp)
+
+
+def logaddexp(a, b):
+    return log(exp(a) + exp(b))
 sqrt = _mk_math("sqrt", _ssqrt, _csqrt, _csqrt)
 
 
@@ -1509,6 +1540,17 @@ def setdiff1d(a, b):
     u = unique(_as(a).reshape(-1))
     bv = [_unbox(v) for v in _flat_any(b)]
     keep = [x for x in u.flat if not _bany(_eqt(x, v) for v in bv)]
+    return ndarray.fresh(keep, (len(keep),), u._dt)
+
+
+def union1d(a, b):
+    return unique(concatenate([_as(a).reshape(-1), _as(b).reshape(-1)]))
+
+
+def intersect1d(a, b):
+    u = unique(_as(a).reshape(-1))
+    bv = [_unbox(v) for v in _flat_any(b)]
+    keep = [x for x in u.flat if _bany(_eqt(x, v) for v in bv)]
     return ndarray.fresh(keep, (len(keep),), u._dt)
 
 
